@@ -591,9 +591,9 @@ func (bs *blockState) concat(a, b Val, ins ssa.Instruction) Val {
 	// the runtime refuses over-long strings; memory exhaustion is outside the model (DESIGN 2.1)
 	bs.assumeG(app("<=", n, "maxlen"))
 	q := e.freshName("k")
-	e.def(fmt.Sprintf("(forall ((%s Int)) (! (=> (and (<= 0 %s) (< %s %s)) (= (select %s %s) (select %s (+ %s %s)))) :pattern ((select %s %s))))", q, q, q, a.C[2], arr, q, a.C[0], a.C[1], q, arr, q))
-	q2 := e.freshName("k")
-	e.def(fmt.Sprintf("(forall ((%s Int)) (! (=> (and (<= 0 %s) (< %s %s)) (= (select %s (+ %s %s)) (select %s (+ %s %s)))) :pattern ((select %s (+ %s %s)))))", q2, q2, q2, b.C[2], arr, a.C[2], q2, b.C[0], b.C[1], q2, arr, a.C[2], q2))
+	// one definition by absolute index of the new array, directed new -> old
+	e.def(fmt.Sprintf("(forall ((%s Int)) (! (=> (and (<= 0 %s) (< %s %s)) (= (select %s %s) (ite (< %s %s) (select %s (+ %s %s)) (select %s (+ %s (- %s %s)))))) :pattern ((select %s %s))))",
+		q, q, q, n, arr, q, q, a.C[2], a.C[0], a.C[1], q, b.C[0], b.C[1], q, a.C[2], arr, q))
 	return Val{a.T, []string{arr, "0", n}}
 }
 
